@@ -80,6 +80,15 @@ Proof.
   vm_compute. repeat split; reflexivity.
 Qed.
 
+(* float samples that are not finite numbers (exported as the markers NaN, PInf, NInf) are in no bin — true of the model by
+   construction (both range tests of the kernel fail on NaN, the infinities are beyond the edges); the content is carried by
+   the correspondence check on float32/float64 traces holding NaN and +-inf samples *)
+Theorem non_finite_samples_are_skipped :
+  forall (edges : list Qc) (est : Qc -> nat) (v : fval),
+  v = NaN \/ v = PInf \/ v = NInf -> bin_index_f edges est v = None.
+Proof. exact bin_index_f_non_finite. Qed.
+Print Assumptions non_finite_samples_are_skipped.
+
 (* ============================================================================================ histogram *)
 
 (* the class look-up table: the class of a value is the position of its LAST declaration; undeclared values have none *)
